@@ -10,6 +10,17 @@ use geo::algorithm::map_coords::{MapCoords, MapCoordsInPlace};
 use geo_types::*;
 
 pub fn gen(rng: &mut Rng, _index: u64) -> String {
+    if rng.chance(1, 40) {
+        // wide integers: neighbours of 2^53 … 2^62 and their negatives
+        let e = rng.range(53, 62) as u32;
+        let n = rng.range(2, 6);
+        let mut s = format!("C19.bboxi {}", n);
+        for _ in 0..n {
+            let v = |rng: &mut Rng| { let b = 1i64 << e; let x = b + rng.range(-3, 3); if rng.chance(1, 3) { -x } else { x } };
+            s.push_str(&format!(" {} {}", v(rng), v(rng)));
+        }
+        return s;
+    }
     let k = grid_size(rng);
     let g = gen_any_geom(rng, k, 3);
     if rng.chance(1, 2) {
@@ -175,6 +186,22 @@ pub fn eval(op: &str, t: &mut Toks) -> R<String> {
     match op {
         "C19.trav" => eval_trav(t),
         "C19.map" => eval_map(t),
+        "C19.bboxi" => {
+            // i64 coordinates beyond 2^53 (distinct integers that collapse in f64): `Rect::new` on the first two,
+            // `bounding_rect` of the line string, the multi point and the polygon made of all of them
+            let n = t.usize()?;
+            let mut cs: Vec<Coord<i64>> = vec![];
+            for _ in 0..n {
+                cs.push(Coord { x: t.i64()?, y: t.i64()? });
+            }
+            if cs.len() < 2 { return Err("bboxi needs two coordinates".into()); }
+            let r = Rect::new(cs[0], cs[1]);
+            let ls = LineString(cs.clone());
+            let mp = MultiPoint(cs.iter().map(|c| Point(*c)).collect::<Vec<_>>());
+            let pg = Polygon::new(ls.clone(), vec![]);
+            let rs = |r: Option<Rect<i64>>| match r { None => "none".to_string(), Some(r) => format!("{} {} {} {}", r.min().x, r.min().y, r.max().x, r.max().y) };
+            Ok(format!("rect {} ls {} mp {} pg {}", rs(Some(r)), rs(ls.bounding_rect()), rs(mp.bounding_rect()), rs(pg.bounding_rect())))
+        }
         _ => Err(format!("unknown op {}", op)),
     }
 }
